@@ -97,11 +97,28 @@ def load():
         for v in (a * b, a << b if b < 64 else 0):
             if 2 <= v <= 2 ** 64:
                 ints.add(v)
+    # chains of two to four literals with * / << >> + - evaluated left to right (16 * 1024 / 3, 64 * 1024 - 1)
+    for m in re.finditer(r"\d[\d_]*(?:\s*(?:\*|/|<<|>>|\+|-)\s*\d[\d_]*){1,3}", no_strings):
+        parts = re.split(r"\s*(\*|/|<<|>>|\+|-)\s*", m.group(0))
+        try:
+            v = int(parts[0].replace("_", ""))
+            for op, b in zip(parts[1::2], parts[2::2]):
+                b = int(b.replace("_", ""))
+                v = v * b if op == "*" else (v // b if b else 0) if op == "/" else (v << b if b < 64 else 0) if op == "<<" else v >> b if op == ">>" else v + b if op == "+" else v - b
+        except ValueError:
+            continue
+        if 2 <= v <= 2 ** 64:
+            ints.add(v)
+    # narrow integer types named in the code: their widths are sizes too (a count kept in u32 wraps at 2^32)
+    widths = set()
+    for m in re.finditer(r"\b([ui])(8|16|32|64)\b", no_strings):
+        widths.add(int(m.group(2)) - (1 if m.group(1) == "i" else 0))
     tokens = sorted(s for s in strs if re.fullmatch(rb"[A-Za-z0-9!#$%&'*+.^_`|~/=;, \"-]{2,48}", s) and not s.isdigit() and s.count(b" ") <= 1)
     d = {"ints": sorted(ints), "strings": sorted(strs), "tokens": tokens,
          "names": [t for t in tokens if re.fullmatch(rb"[A-Za-z][A-Za-z0-9-]{2,40}", t) and b"-" in t or t in (b"Trailer", b"Expect", b"Connection", b"Host", b"Vary", b"Upgrade", b"TE")],
          "sizes": sorted(v for v in ints if 3 <= v <= 1_100_000),
-         "big": sorted(v for v in ints if 1_100_000 < v <= 2 ** 27)}
+         "big": sorted(v for v in ints if 1_100_000 < v <= 2 ** 27),
+         "widths": sorted(widths | set([8, 16, 31, 32, 63]))}
     _cache["d"] = d
     return d
 
